@@ -258,19 +258,30 @@ def c03_scenarios(cases, prop):
 
 def c15_scenarios(cases, prop, rng):
     out = []
+    # the sets without an evaluable member always take part
+    cases = sorted(cases, key=lambda q: "ok" in q)
     for k, q in enumerate(cases):
-        irr = Irr(); running = []; policies = {}
+        irr = Irr(); running = []; policies = {}; eph0 = []
         for i, cls in enumerate(q):
             name = f"p{i}-{cls}"
             if cls == "ok":
                 v4 = rng.sample(["a", "b", "r9", "r11"], rng.randint(1, 3)); v6 = ["c"] if rng.random() < 0.5 else []
                 expr = irr.asset_with(v4, v6)
                 policies[name] = exp(True, True, "ok", v4, v6, expr, "ok")
+                if (k + i) % 3 == 0:
+                    eph0.append(installed(name, ["d"], []))         # installed with something else: has to change
             else:
                 expr, ev = bad_policy(irr, cls, i)
                 policies[name] = exp(True, True, ev, why=cls)
+                if (k + i) % 2 == 0:
+                    eph0.append(installed(name, ["a"], ["c"]))      # was evaluable once: stays as it is
             running.append(stmt(name, f"/* bgpfu-fltr: {expr} */"))
-        out.append({"case": f"{prop}-q{k}", "instance": "bgpfu", "eph0": [],
+        if "ok" not in q or k % 4 == 0:
+            # other work of the run: an installed policy that is not managed any more
+            eph0.append(installed("gone", ["b"], []))
+            running.append(stmt("gone", None))
+            policies["gone"] = exp(False, False, "none", why="unmarked")
+        out.append({"case": f"{prop}-q{k}", "instance": "bgpfu", "eph0": eph0,
                     "runs": [{"running": running, "irr": irr.db, "faults": [], "repeat": False,
                               "expect": {"prop": prop, "c16": False, "policies": policies}}],
                     "meta": {"family": "c15", "classes": q}})
